@@ -348,9 +348,9 @@ func hangCases(tier string, seed int64) []eng.Case {
 				default:
 					c.Count("errors_observed", 1)
 				}
-			case <-time.After(10 * time.Second):
+			case <-time.After(120 * time.Second): // generous: a valid request takes milliseconds, a loaded machine must not turn into a verdict
 				// the goroutine keeps spinning until the worker exits; hang cases are last in the list
-				c.Violate("C19|"+pr.Entry+"|hang|"+pr.Pred, pr.ID+": the call did not return within 10 s (valid requests take milliseconds); the generator loops forever once its search flags are false / its step is 0", nil)
+				c.Violate("C19|"+pr.Entry+"|hang|"+pr.Pred, pr.ID+": the call did not return within 120 s (valid requests take milliseconds); the generator loops forever once its search flags are false / its step is 0", nil)
 				c.Count("hangs_observed", 1)
 			}
 		}})
